@@ -298,6 +298,11 @@ def assemble(repo, template_text, canary_set=None):
                     n += 1
         elif kind == "consts":
             f, rx = val
+            # `<regex> :: optional` -- zero matches is fine (the directive then only makes FUTURE constants visible)
+            optional = False
+            if rx.endswith(":: optional"):
+                optional = True
+                rx = rx[:-len(":: optional")].strip()
             src = rsx._load(repo, f)
             items = rsx.parse_items(src.toks, 0, len(src.toks))
             pat = re.compile(rx)
@@ -315,7 +320,7 @@ def assemble(repo, template_text, canary_set=None):
                     for k_, v_ in rw.items():
                         asm.rewrites[k_] = asm.rewrites.get(k_, 0) + v_
                     n += 1
-            if n == 0:
+            if n == 0 and not optional:
                 raise rsx.ExtractError("anchor lost: no const matching %s in %s" % (rx, f))
         else:
             b = val
